@@ -5,7 +5,7 @@
    by the oracle (tested_only). *)
 From Coq Require Import String ZArith Bool Arith List.
 From SV Require Import Names NamesFacts ListFacts Rep Fresh Complex Atomic RepInv Homology Filtration FiltProofs Shapes SnapProofs.
-From SV Require Closed ClosedReach Listing VInv VIso FiltClosed FiltBook FiltCount.
+From SV Require Closed ClosedReach Listing VInv VIso FiltClosed FiltBook FiltCount SnapCounts.
 Import ListNotations.
 
 Theorem C14_maxOrder_refuted : maxOrder (f_rep witness) <> maxOrder (snap_rep witness).
@@ -100,3 +100,11 @@ Theorem C14_snapshot_counts_what_the_filtration_counts :
   copy_new hp (f_view f) uid = (hp', c, Ok tt) -> numberOfSimplices c = f_numberOfSimplices f.
 Proof. exact FiltCount.snapshot_counts_what_the_filtration_counts. Qed.
 Print Assumptions C14_snapshot_counts_what_the_filtration_counts.
+
+(* THE PER-ORDER COUNTS, as lists: what the filtration reports at its index (trailing zeros dropped) is the list the
+   snapshot reports (its top order is populated, so it has no trailing zero) *)
+Theorem C14_snapshot_counts_per_order :
+  forall hp f uid hp' c, Closed.cinv (f_rep f) -> copy_new hp (f_view f) uid = (hp', c, Ok tt) ->
+  numberOfSimplicesOfOrder c = f_numberOfSimplicesOfOrder f.
+Proof. exact SnapCounts.snap_counts_per_order. Qed.
+Print Assumptions C14_snapshot_counts_per_order.
